@@ -1,7 +1,7 @@
 import Aiorpcx.Common.Hex
 import Aiorpcx.C13.Model
 /-! Line-protocol driver for the C13 limiter model.
-    in : `<init> <op> <op> ...` with ops `e<i>` enter, `x<i>` exit, `c<i>` cancel waiter `i`,
+    in : `<init>[!] <op> <op> ...` (`!` = the pinned class, before F23) with ops `e<i>` enter, `x<i>` exit, `c<i>` cancel waiter `i`,
          `t<n>` set_target(n) (n may be negative: `t-1`)
     out: one record per op, joined by ` | `:
          `<events>;h=<holders sorted>;w=<waiters FIFO>;T=<target>` with events `E<i>` entered,
@@ -38,9 +38,12 @@ def go (s : Lim) : List Op → List String
 def handle (line : String) : String :=
   match (line.splitOn " ").filter (· ≠ "") with
   | n :: ops =>
-    match n.toNat?, ops.mapM parseOp with
+    let pinned := n.endsWith "!"
+    let n := if pinned then (n.dropEnd 1).toString else n
+    match n.toInt?, ops.mapM parseOp with
     | some n, some ops =>
-        if ops.isEmpty then "." else String.intercalate " | " (go (init n) ops)
+        if ops.isEmpty then "."
+        else String.intercalate " | " (go (if pinned then initPinned n.toNat else init n) ops)
     | _, _ => "bad-op"
   | _ => "bad-op"
 
